@@ -1,4 +1,5 @@
 import ClusterVerif.Spec.C10
+import ClusterVerif.Spec.C10Dist
 import Driver.PinParse
 import Driver.C04
 namespace CV.C10
@@ -190,7 +191,109 @@ def answerExpat (ws : List String) : String :=
 
 def isSorted (l : List Nat) : Bool := (l.zip l.tail).all (fun (a, b) => decide (a ≤ b))
 
+/-! ### suite `dist`: the byte level of the distance checker -/
+
+def hexVal (c : Char) : Option Nat :=
+  if '0' ≤ c && c ≤ '9' then some (c.toNat - '0'.toNat)
+  else if 'a' ≤ c && c ≤ 'f' then some (c.toNat - 'a'.toNat + 10) else none
+
+def hexBytesAux : List Char → Option (List Nat)
+  | [] => some []
+  | a :: b :: t => do
+    let x ← hexVal a
+    let y ← hexVal b
+    let r ← hexBytesAux t
+    pure ((16 * x + y) :: r)
+  | _ => none
+
+/-- a 32-byte array written as 64 hex digits -/
+def hex32 (s : String) : Option (List Nat) := do
+  let b ← hexBytesAux s.toList
+  if b.length == 32 then some b else none
+
+def hexDigit (n : Nat) : Char := if n < 10 then Char.ofNat ('0'.toNat + n) else Char.ofNat ('a'.toNat + n - 10)
+def showHex (b : List Nat) : String := String.ofList (b.flatMap (fun x => [hexDigit (x / 16), hexDigit (x % 16)]))
+
+def commonPrefix : List Nat → List Nat → Nat
+  | x :: xs, y :: ys => if x == y then 1 + commonPrefix xs ys else 0
+  | _, _ => 0
+
+def maxPrefix : List (List Nat) → Nat
+  | [] => 0
+  | h :: t => (t.map (commonPrefix h)).foldl max (maxPrefix t)
+
+def parseDistMember (s : String) : Option (Nat × Bool × List Nat) :=
+  match s.splitOn ":" with
+  | [i, f, h] => do pure (← i.toNat?, f == "i", ← hex32 h)
+  | _ => none
+
+def parseDistCid (s : String) : Option (Nat × List Nat) :=
+  match s.splitOn ":" with
+  | [i, h] => do pure (← i.toNat?, ← hex32 h)
+  | _ => none
+
+def parseAns (s : String) : Option (List (Nat × List Bool)) :=
+  if s == "-" then some [] else
+  (s.splitOn "|").mapM (fun part =>
+    match part.splitOn "=" with
+    | [i, b] => do
+      let bits ← if b == "-" then some [] else b.toList.mapM (fun c => if c == '1' then some true else if c == '0' then some false else none)
+      pure (← i.toNat?, bits)
+    | _ => none)
+
+def answerXor (ws : List String) : String :=
+  match ws with
+  | [a, b, "=>", c] =>
+    match hex32 a, hex32 b with
+    | some x, some y =>
+      let want := showHex (Dist.xorB x y)
+      let arm := if x == y then "xor-equal" else if commonPrefix x y == 31 then "xor-last-byte" else "xor-general"
+      if c == want then "ok arm=" ++ arm else "diff arm=" ++ arm ++ " model=" ++ want
+    | _, _ => "bad-case parse"
+  | _ => "bad-case parse"
+
+def answerDist (ws : List String) : String :=
+  match ws with
+  | [ex, members, cids, "=>", ans, cache] =>
+    if (ans.splitOn "|").any (fun p => p.endsWith "=panic") then "propfail member_call_failed arm=dist" else
+    match listOf parseDistMember members, listOf parseDistCid cids, parseAns ans with
+    | some ms, some cs, some an =>
+      let k : Dist.DistCase := { exclude := ex.toNat?, members := ms.map (fun m => (m.1, m.2.2)), cids := cs }
+      let surv := k.survivors
+      let ids := k.members.map (·.1)
+      if (ids.eraseDups).length != ids.length then "bad-case duplicate-member" else
+      if an.map (·.1) != surv.map (·.1) then "bad-case answers-not-from-survivors" else
+      let hashFn : Nat → List Nat := fun p => (C04.lookup k.members p).getD []
+      let seed : Dist.Cache := (ms.filter (fun m => m.2.1 && some m.1 != k.exclude)).map (fun m => (m.1, m.2.2))
+      let model : List (Nat × List Bool) := surv.map (fun m =>
+        (m.1, (Dist.isClosestSeq hashFn seed m.1 (Dist.candidates ids m.1 k.exclude) (cs.map (·.2))).1))
+      let mp := maxPrefix (surv.map (·.2))
+      let arm := if surv.length ≤ 1 then "dist-alone" else if mp == 32 then "dist-collision" else if mp == 31 then "dist-prefix-31"
+        else if mp ≥ 24 then "dist-prefix-24-30" else if mp ≥ 8 then "dist-prefix-8-23" else if mp ≥ 1 then "dist-prefix-1-7" else "dist-prefix-0"
+      let exClosest : Bool := match k.exclude with
+        | some e => (match C04.lookup k.members e with
+          | some he => !surv.isEmpty && cs.any (fun c => surv.all (fun m => Dist.cmpB (Dist.xorB he c.2) (Dist.xorB m.2 c.2) == .lt))
+          | none => false)
+        | none => false
+      let nInj := (ms.filter (·.2.1)).length
+      let dims : List String :=
+        ["dist-members-" ++ toString ms.length, "dist-cids-" ++ toString cs.length,
+         (if nInj == 0 then "dist-real-hashes" else if nInj == ms.length then "dist-injected-hashes" else "dist-mixed-hashes")] ++
+        (if k.exclude.isSome then ["dist-with-exclude"] else []) ++
+        (if exClosest then ["dist-excluded-is-closest"] else []) ++
+        (if surv.any (fun m => cs.any (fun c => c.2 == m.2)) then ["dist-zero-distance"] else []) ++
+        (if surv.any (fun m => m.2.any (· ≥ 128)) && mp ≥ 1 then ["dist-high-bytes"] else [])
+      let arms := " arm=" ++ arm ++ String.join (dims.map (fun d => " arm=" ++ d))
+      let failed := (Dist.distClauses k an).filter (fun c => !c.2)
+      if !failed.isEmpty then "propfail " ++ ",".intercalate (failed.map (·.1)) ++ arms else
+      if an == model && cache == "c1" then "ok" ++ arms
+      else "diff" ++ arms ++ " model=" ++ "|".intercalate (model.map (fun m => toString m.1 ++ "=" ++ String.ofList (m.2.map (fun b => if b then '1' else '0')))) ++ (if cache == "c1" then "" else " cache-differs")
+    | _, _, _ => "bad-case parse"
+  | _ => "bad-case parse"
+
 def answer (ws : List String) : String :=
+  if ws.head? == some "dist" then answerDist (ws.drop 1) else
+  if ws.head? == some "xor" then answerXor (ws.drop 1) else
   if ws.head? == some "expat" then answerExpat (ws.drop 1) else
   match parseCase ws with
   | none => "bad-case parse"
